@@ -60,3 +60,34 @@ Proof.
   intros R Ok So HL HC NC. destruct (textw_parse_source stmts ws seps R Ok So) as (els & HP & <-).
   apply (layout_accepts fs path _ els placed env HP HL); [apply class_v_class; exact HC|exact NC].
 Qed.
+
+(* ------------------------------------------------------------------ the wider class (LayoutStep.stmt_okx) on statement values *)
+Definition C05_class_vx (fs fsr : str -> option (list N)) (path : str) (E : env) (stmts : list element_value) : Prop :=
+  forall pre e post s0, stmts = pre ++ e :: post -> pass1 fsr (mkP1 None [] []) pre = Some s0 -> stmt_okx fs fsr path E (p_env s0) e.
+
+Lemma class_vx_class fs fsr path E els : C05_class_vx fs fsr path E (map e_val els) -> C05_classx fs fsr path E els.
+Proof.
+  intros H pre e post s0 Hl Hp. apply (H (map e_val pre) (e_val e) (map e_val post) s0); [|exact Hp].
+  rewrite Hl, map_app. reflexivity.
+Qed.
+
+Theorem text_layoutx fs fsr path stmts seps placed env :
+  forallb writable_stmt stmts = true -> seps_ok (render_stmts stmts) seps ->
+  layout_spec fsr stmts = Some (placed, env) -> C05_class_vx fs fsr path env stmts -> no_collision fsr stmts ->
+  pipeline fs path (show (render_stmts stmts) seps) = Done Success [] (image_of placed).
+Proof.
+  intros W So HL HC NC. destruct (text_parse_source stmts seps W So) as (els & HP & <-).
+  apply (layout_acceptsx fs fsr path _ els placed env HP HL); [apply class_vx_class; exact HC|exact NC].
+Qed.
+
+Theorem textw_layoutx fs fsr path stmts ws seps placed env :
+  ParseProofs.RendStmts stmts (map wtok_val ws) -> Forall wtok_ok ws -> wseps_ok ws seps ->
+  layout_spec fsr stmts = Some (placed, env) -> C05_class_vx fs fsr path env stmts -> no_collision fsr stmts ->
+  pipeline fs path (showw ws seps) = Done Success [] (image_of placed).
+Proof.
+  intros R Ok So HL HC NC. destruct (textw_parse_source stmts ws seps R Ok So) as (els & HP & <-).
+  apply (layout_acceptsx fs fsr path _ els placed env HP HL); [apply class_vx_class; exact HC|exact NC].
+Qed.
+
+Definition C05_class_vw (fs : str -> option (list N)) (path : str) (E : env) (stmts : list element_value) : Prop :=
+  C05_class_vx fs (rel_fs fs path) path E stmts.
